@@ -298,4 +298,21 @@ func init() {
 		Outside: []string{"real-valued Jitter/Multiplier other than the listed ones in the schedule clauses (mergeDefaults is decided for all values)", "waits after the first one of a series started by a server retry value inside the Connect harness (floating-point growth: decided in the controller harness for the listed configurations)", "float to Duration overflow", "wall-clock timing: timers fire at once, time.Now is an arbitrary non-decreasing value"},
 		Oracle:  "recurrence b_1 = InitialInterval or the server retry value, b_(k+1) = min(b_k*Multiplier, MaxInterval); wait within +-Jitter of b_k (exactly b_k for -1), rounded outward to whole nanoseconds; at most MaxRetries grants in a row; refusal only when elapsed+wait would exceed MaxElapsedTime; OnRetry once per retry with the duration the timer is armed with",
 	}
+
+	// ---- Joe: every interleaving of a bounded configuration ----
+	joe := func(h string, kv ...interface{}) hrun {
+		return hrun{Harness: h, Params: P(kv...), Threads: true, Stress: 20000, NoNative: true, MaxSteps: 20000000}
+	}
+	checks["C06"] = &propCheck{
+		ID: "C06",
+		Quick: []hrun{
+			joe("vhC06Joe", "NSUB", 1, "NMSG", 1, "NSHUT", 0, "CANCEL", 1, "TOPICS", 0),
+			joe("vhC06Joe", "NSUB", 1, "NMSG", 1, "NSHUT", 1, "CANCEL", 1, "TOPICS", 0),
+		},
+		Thorough: []hrun{
+			joe("vhC06Joe", "NSUB", 1, "NMSG", 2, "NSHUT", 1, "CANCEL", 1, "TOPICS", 0),
+		},
+		Labels: []string{"C06/", "panic:"},
+		Bounds: map[string]string{"quick": "", "thorough": ""},
+	}
 }
